@@ -16,7 +16,7 @@ class C07(Check):
             "with the txscript engine, and measured with mempool.GetTxVirtualSize; plus unit cases of FeeForSerializeSize, "
             "EstimateVirtualSize and IsDustOutput.  non-trivial = authoring case with at least one coin, or a unit case; distinct by input")
     N_QUICK = 600
-    N_THOROUGH = 12000
+    N_THOROUGH = 6000
     SHARD = 300
     ASSUMPTIONS = [
         "input source = prefix accumulator over a fixed arrangement (wallet.makeInputSource); coin values and output values are non-negative",
@@ -37,6 +37,71 @@ class C07(Check):
             n = len(c["in"]["outs"])
             c["in"]["outs"] = c["in"]["outs"][:3] + ["... %d outputs in total" % n]
         return c
+
+    # -- shrinking: greedy simplification, every candidate re-run on the implementation
+    def _run_one(self, inp):
+        p = os.path.join(WORK, "C07", "shrink_in.jsonl")
+        os.makedirs(os.path.dirname(p), exist_ok=True)
+        with open(p, "w") as f:
+            f.write(json.dumps({"in": inp}) + "\n")
+        rc, cs, err = run_vh([self.vh_cmd(), "-replay", p], timeout=120)
+        return cs[0] if rc == 0 and len(cs) == 1 else None
+
+    def shrink(self, case, kind):
+        if case["in"].get("kind") != "author":
+            return case
+        site = case.get("site")
+        best = case
+
+        def attempt(inp):
+            nonlocal best
+            c = self._run_one(inp)
+            if c is not None and kind in c.get("oracle", []) and c.get("site") == site:
+                best = c
+                return True
+            return False
+
+        for _ in range(3):
+            cur = json.loads(json.dumps(best["in"]))
+            progress = False
+            # fewer coins (dropping from the end, then from the front)
+            for idx in list(range(len(cur["coins"]) - 1, -1, -1)):
+                if len(cur["coins"]) <= 1:
+                    break
+                cand = dict(cur, coins=cur["coins"][:idx] + cur["coins"][idx + 1:])
+                if attempt(cand):
+                    cur = json.loads(json.dumps(best["in"]))
+                    progress = True
+            # fewer outputs (halves, then single ones when few are left)
+            n = len(cur["outs"])
+            chunk = n // 2
+            while chunk >= 1 and len(cur["outs"]) > 0:
+                i = 0
+                while i < len(cur["outs"]):
+                    cand = dict(cur, outs=cur["outs"][:i] + cur["outs"][i + chunk:])
+                    if attempt(cand):
+                        cur = json.loads(json.dumps(best["in"]))
+                        progress = True
+                    else:
+                        i += chunk
+                    if len(cur["outs"]) > 16 and chunk == 1:
+                        break
+                if len(cur["outs"]) > 16 and chunk == 1:
+                    break
+                chunk //= 2
+            # uniform outputs, floor rate
+            if any(o != {"t": "p2wpkh", "v": 1000} for o in cur["outs"]):
+                before = sum(o["v"] for o in cur["outs"])
+                cand = dict(cur, outs=[{"t": "p2wpkh", "v": 1000} for _ in cur["outs"]])
+                if sum(o["v"] for o in cand["outs"]) <= before and attempt(cand):
+                    cur = json.loads(json.dumps(best["in"]))
+                    progress = True
+            if cur["rate"] != 1000 and attempt(dict(cur, rate=1000)):
+                cur = json.loads(json.dumps(best["in"]))
+                progress = True
+            if not progress:
+                break
+        return best
 
     def render_cases(self, cases):
         def outs(os_):
